@@ -386,6 +386,8 @@ def cases(tier):
     cs += ycocg_cases(tier)
     cs += srgb_cases(tier)
     cs += saturation_cases(tier)
+    from rules import c19_hsv
+    cs += c19_hsv.hsv_cases(tier, CFG)
     cs += canaries()
     return cs
 
